@@ -138,11 +138,14 @@ class PipeRelay(Relay):
         try:
             with Timeout(self.timeout):
                 args = self._process_args(envelope, rcpt)
-                return self._exec_process(args, stdin)
+                error = self._exec_process(args, stdin)
         except Timeout:
             msg = 'Delivery timed out'
             reply = Reply('450', '4.4.2 ' + msg)
             raise TransientRelayError(msg, reply)
+        if error is not None:
+            raise error
+        return None
 
     def raise_error(self, status, stdout, stderr):
         """This method may be over-ridden by sub-classes if you need to control
